@@ -356,6 +356,9 @@ type Relationship struct {
 	ID     string `xml:"Id,attr"`
 	Type   string `xml:"Type,attr"`
 	Target string `xml:"Target,attr"`
+	// TargetMode 为 "External" 时 Target 是包外的资源（例如超链接的URL），否则指向包内的部件。
+	// 打开的文档中的该属性必须原样保留：丢失后外部关系会变成指向不存在部件的内部关系。
+	TargetMode string `xml:"TargetMode,attr,omitempty"`
 }
 
 // ContentTypes 内容类型
